@@ -122,6 +122,35 @@ def cases(tier, seed):
                     continue
                 for lat, s in fams:
                     yield dict(kind="trend", degree=deg, lat=lat, pts=s, sc=sc, off=off)
+        # the route by which the degree reaches the estimator (first and last family of each degree)
+        for route in TREND_ROUTES[1:]:
+            for lat, s in (fams[:2] + fams[-2:]) if tier == "quick" else fams[:40] + fams[-40:]:
+                yield dict(kind="trend", degree=deg, lat=lat, pts=s, sc=1.0, off=0.0, route=route)
+
+
+TREND_ROUTES = ["ctor", "set_up", "set_down", "attr_up", "attr_down", "clone_set", "refit_up", "refit_down"]
+
+
+def _trend_by_route(deg, route, e, n):
+    """Trend of degree `deg` reached through constructor / set_params / attribute assignment / clone / after a fit with another degree."""
+    import verde as vd
+    from sklearn.base import clone
+
+    if route == "ctor":
+        return vd.Trend(deg)
+    other = max(deg - 2, 0) if route.endswith("up") or route == "clone_set" else deg + 2
+    if other == deg:
+        other = deg + 1
+    est = vd.Trend(other)
+    if route.startswith("refit"):
+        est.fit((e, n), e * 0.5 - n)   # fitted with the other degree first
+    if route.startswith("attr"):
+        est.degree = deg
+    elif route == "clone_set":
+        est = clone(est).set_params(degree=deg)
+    else:
+        est.set_params(degree=deg)
+    return est
 
 
 def _coords(case):
@@ -289,7 +318,7 @@ def run(case, rec):
         rec.cls("trend deg=%d cond 1e%d" % (deg, int(math.log10(max(ref["cond"], 1.0)))))
         for (i, j) in R.monomials(deg):
             data = u ** i * v ** j
-            est = vd.Trend(deg)
+            est = _trend_by_route(deg, case.get("route", "ctor"), e, n)
             fit = call(rec, est.fit, (e, n), data)
             if raised(fit):
                 return rec.check(False, "Trend(%d).fit raised %r" % (deg, fit))
